@@ -32,6 +32,9 @@ long panels_total = 0, handed_total = 0;
 bool dynamic_mode = false;
 long max_open_nsuper = -1;
 std::vector<std::vector<std::pair<long, long>>> upd_ranges; // per target column
+struct UpdRec { long jj, kf, kr, pstart; };
+std::vector<UpdRec> upd_log;   // every per-column update, checked against the final supernode partition
+long released_total = 0; bool extents_checked = false;
 long thread_exits = 0;
 bool mem_error_seen = false;
 
@@ -64,7 +67,7 @@ void on_init(long n, const void *ptr, long c) {
     sim::note_sched_lock(&shared->lu_locks[SCHED_LOCK]);
     sim::note_tasks_remain((const void *)&shared->tasks_remain, (int)sizeof(int_t));
     col_state.assign(n, C_UNTAKEN); col_owner.assign(n, -1); pivots.assign(n, 0); releases.assign(n, 0);
-    handed.assign(n + 1, 0); upd_ranges.assign(n, {});
+    handed.assign(n + 1, 0); upd_ranges.assign(n, {}); upd_log.clear(); released_total = 0; extents_checked = false;
     ts.clear();
     panels_total = shared->tasks_remain; handed_total = 0; max_open_nsuper = -1; thread_exits = 0; mem_error_seen = false;
     first_zero_col = -1;
@@ -234,6 +237,7 @@ void on_event(int task, int kind, long pnum, long a, long b, long c, const void 
         if (jj >= 0 && jj < N) {
             for (auto &r : upd_ranges[jj]) if (!(kr < r.first || kf > r.second)) { viol("C03", "update_applied_twice", fmt("column %ld: source range [%ld..%ld] overlaps [%ld..%ld]", jj, kf, kr, r.first, r.second)); break; }
             upd_ranges[jj].push_back({kf, kr});
+            upd_log.push_back({jj, kf, kr, me.panel});
         }
         break;
     }
@@ -316,12 +320,12 @@ void on_event(int task, int kind, long pnum, long a, long b, long c, const void 
         break;
     case SLU_EV_COL_RELEASED:
         if (shared->spin_locks[a] != 0) viol("C03", "release_flag_not_cleared", fmt("column %ld: flag still set after release", a));
-        col_state[a] = C_RELEASED; ++releases[a];
+        col_state[a] = C_RELEASED; ++releases[a]; ++released_total;
         break;
     case SLU_EV_SNODE_RELEASE:
         for (long j = a; j < a + b && j < N; ++j) {
             if (col_state[j] != C_PIVOTED) viol("C03", "release_before_pivot", fmt("relaxed supernode %ld: column %ld released in state %d", a, j, col_state[j]));
-            col_state[j] = C_RELEASED; ++releases[j];
+            col_state[j] = C_RELEASED; ++releases[j]; ++released_total;
         }
         break;
     case SLU_EV_PRUNE_BEGIN: {
@@ -341,6 +345,21 @@ void on_event(int task, int kind, long pnum, long a, long b, long c, const void 
     }
     case SLU_EV_THREAD_EXIT:
         ++thread_exits;
+        if (released_total == N && !extents_checked && !mem_error_seen) {
+            // C03 "applied exactly once": an update from supernode s to column jj must use s up to its last column, unless s
+            // continues into jj's own panel (then the rest is applied by the panel-internal update) -- judged on the final partition
+            extents_checked = true;
+            const int_t *supno = Glu->supno, *xsup = Glu->xsup, *xse = Glu->xsup_end;
+            for (auto &u : upd_log) {
+                long s_ = supno[u.kr];
+                if (supno[u.kf] != s_ || u.kf < xsup[s_]) { viol("C03", "update_range_spans_supernodes", fmt("column %ld updated from [%ld..%ld], not inside one supernode", u.jj, u.kf, u.kr)); break; }
+                long rep = xse[s_] - 1;
+                if (u.kr == rep || u.kr == u.jj - 1 || u.kr + 1 == u.pstart) continue;
+                viol("C03", "update_uses_partial_supernode", fmt("column %ld (panel %ld) updated from [%ld..%ld] but the supernode is [%ld..%ld]", u.jj, u.pstart, u.kf, u.kr, (long)xsup[s_], rep));
+                break;
+            }
+            probes["update_extents_checked"] += (long)upd_log.size();
+        }
         if (shared->tasks_remain > 0) viol("C04", "worker_exit_with_tasks_remaining", fmt("worker left its loop with tasks_remain=%ld", (long)shared->tasks_remain));
         break;
     default: break;
